@@ -321,6 +321,22 @@ pub fn run_check(spec: &PropSpec, tier: &str, base_seed: u64, threads: usize) ->
             },
         });
     }
+    if let Some(n) = fam_runs.get("C16X") {
+        let total = crate::families::c16x_total();
+        let le2 = crate::families::c16x_total_le2();
+        ev["coverage"]["sequence_enumeration"] = json!({
+            "family": "C16X",
+            "points_executed": n,
+            "points_in_the_enumeration": total,
+            "points_covering_every_sequence_of_length_le_2": le2,
+            "all_sequences_of_length_le_2_executed": *n >= le2,
+            "all_sequences_of_length_le_3_executed": *n >= total,
+            "complete_rounds_of_the_whole_enumeration": n / total,
+            "alphabet": {"MQTT 5": crate::families::c16x_alphabet_len(crate::refcodec::Ver::V5), "MQTT 3.1.1": crate::families::c16x_alphabet_len(crate::refcodec::Ver::V3)},
+            "roles": 4,
+            "application_states": crate::families::C16X_STATES,
+        });
+    }
     let dir = out_dir().join("evidence");
     let _ = std::fs::create_dir_all(&dir);
     let _ = std::fs::write(dir.join(format!("{}.json", spec.id)), serde_json::to_string_pretty(&ev).unwrap());
